@@ -23,7 +23,7 @@ def spell(items):
     for t, a, b in items:
         b = b.strip('"')
         if t == 'LAB':
-            out.append('glob1:' if a == 'g1' else 'glob2:')
+            out.append({'g1': 'glob1:', 'l1': '.loc1:'}.get(a, 'glob2:'))
         elif t == 'MN':
             out.append(cased(a, b))
         elif t == 'REG':
@@ -35,7 +35,7 @@ def spell(items):
         elif t == 'STR':
             out.append('"a\\"b"')
         elif t == 'REF':
-            out.append('glob1' if a == 'g1' else 'glob2')
+            out.append({'g1': 'glob1', 'l1': '.loc1'}.get(a, 'glob2'))
         elif t == 'DIR':
             out.append(a)
         elif t == 'BL':
